@@ -453,7 +453,7 @@ func cmdCheck(args []string) int {
 		if r.Ends["unsupported"] > 0 {
 			machinery = append(machinery, fmt.Sprintf("%s: %d paths ended UNSUPPORTED: %v", ob.Name, r.Ends["unsupported"], r.EndSamples["unsupported"]))
 		}
-		if r.Ends["unwind"] > 0 {
+		if r.Ends["unwind"] > 0 && !ob.AllowUnwind {
 			machinery = append(machinery, fmt.Sprintf("%s: %d paths hit the unwinding bound: %v", ob.Name, r.Ends["unwind"], r.EndSamples["unwind"]))
 		}
 		if r.Budget {
